@@ -11,6 +11,10 @@ format_date(date, FMT) / format_datetime(date, FMT) calls in random byte order, 
 --date-format / --datetime-format / --input-date-format and with --dow, -M, --by-payee (which print
 dates themselves through the same formatter cache); the oracle reads every field back in the
 format it was requested in (in the model a formatter is a function of the format string alone).
+Input formats with month and weekday NAMES (%b %B %h %a %A; g_names): the text the format prints, other
+letter cases, the other name form, the weekday name of another day and a month name against the month
+number (both must be rejected), impossible days by name, damaged names, trailing text; formats that begin
+with a name are read as auxiliary dates.
 Oracle: python's datetime (proleptic Gregorian) evaluates the property text on ledger's output:
 an intended valid date must be accepted, print as that very day with the calendar's weekday and
 day of the year; an impossible date or a date with trailing characters must be rejected; order
@@ -23,12 +27,13 @@ META = dict(
     id='C14',
     level='proof',
     technique='Coq proof (date reader/formatter model against the Gregorian calendar: round trips, soundness of acceptance, weekday, order) + differential correspondence of the extracted model against ledger, exhaustive over 1900..2199 in every accepted spelling',
-    level_text='Theorems in coq/Properties/Properties_C14.v state, for all dates of boost\'s range 1400..9999 and all strings, that the model of parse_date (reader list regenerated from times.cc, separator rewriting, glibc strptime for %Y %m %d %y, boost date construction, re-format-and-compare, year inference) accepts every accepted spelling of a valid date as exactly that day, accepts nothing that does not spell a valid date (month 13, day 32, 30 February, 29 February of a non-leap year, trailing characters are errors), that formatting a read date gives the same day, that weekday and order are those of the Gregorian calendar, and that day number <-> civil date conversions are inverse bijections. The model is tied to the code by reading every day 1900-01-01..2199-12-31 in six spellings, every impossible month/day for leap, non-leap and century years, MM/DD under year directives and --now, range ends, malformed strings, random --input-date-format/--date-format pairs, and reports that ask for several different date formats in one run (2-7 per run, with --dow / -M / --by-payee) both in freshly built ledger and in the extracted model; the translator re-reads from times.cc that the formatter cache is keyed by the exact format string, and from textual.cc how a year directive and the end of an included file move the current date (year directives under several clocks, nested, closed, and across `include`d files are generated; the current date of every transaction comes from the model\'s epoch machine).',
-    level_note='Trusted: Coq kernel; extraction + OCaml driver and the python harness for the correspondence; glibc strptime/strftime modelled for the numeric directives (%Y %m %d %e %y %j %u %w, names %a %A %b %B in the C locale) and validated differentially; boost::gregorian date construction, day numbers and month arithmetic transcribed in Base/Calendar.v and proved equal to the era-based calendar. A year-less MM/DD later in the year than today is taken from the previous year (same month and day; 29 February then has no counterpart and is an error).',
+    level_text='Theorems in coq/Properties/Properties_C14.v state, for all dates of boost\'s range 1400..9999 and all strings, that the model of parse_date (reader list regenerated from times.cc, separator rewriting, glibc strptime for %Y %m %d %e %y and the names %b %B %h %a %A, boost date construction, re-format-and-compare, year inference) accepts every accepted spelling of a valid date as exactly that day, accepts nothing that does not spell a valid date (month 13, day 32, 30 February, 29 February of a non-leap year, trailing characters are errors), that formatting a read date gives the same day, that weekday and order are those of the Gregorian calendar, and that day number <-> civil date conversions are inverse bijections. The model is tied to the code by reading every day 1900-01-01..2199-12-31 in six spellings, every impossible month/day for leap, non-leap and century years, MM/DD under year directives and --now, range ends, malformed strings, random --input-date-format/--date-format pairs, input formats with month and weekday names (exact text, other case, other form, wrong weekday, contradicting month, impossible day, damaged, trailing), and reports that ask for several different date formats in one run (2-7 per run, with --dow / -M / --by-payee) both in freshly built ledger and in the extracted model; the translator re-reads from times.cc that the formatter cache is keyed by the exact format string, the presets of the struct tm given to strptime and the byte the re-format-and-compare loop may skip (both used by the model), and from textual.cc how a year directive and the end of an included file move the current date (year directives under several clocks, nested, closed, and across `include`d files are generated; the current date of every transaction comes from the model\'s epoch machine).',
+    level_note='Trusted: Coq kernel; extraction + OCaml driver and the python harness for the correspondence; glibc strptime/strftime modelled for the numeric directives (%Y %m %d %e %y %j %u %w, names %a %A %b %B %h in the C locale, read case-insensitively in either form) and validated differentially; boost::gregorian date construction, day numbers and month arithmetic transcribed in Base/Calendar.v and proved equal to the era-based calendar. A year-less MM/DD later in the year than today is taken from the previous year (same month and day; 29 February then has no counterpart and is an error).',
     design_ref='DESIGN.md section 7 C14, section 6.5',
     assumptions=['TZ=UTC, LC_ALL=C (weekday and month names)',
                  'date strings contain no white space when written as transaction dates (the journal tokenizer cuts there)',
-                 'format strings use only the modelled directives and stay below 127 bytes when expanded'],
+                 'format strings use only the modelled directives and stay below 127 bytes when expanded',
+                 'an abbreviated name directive (%b %h %a) of an input format is not directly followed by literal letters completing the full name (finding F-C14-N1)'],
 )
 
 OUTF = '%Y-%m-%d %a %u %w %j %y %e %b %A %B'
@@ -787,6 +792,144 @@ def g_custom(ctx, rng, npairs, per):
     return groups
 
 
+# ------------------------------------------------------------------------------------------ names in input formats
+NAME_FMTS_DIGIT_FIRST = ['%d-%b-%Y', '%d%b%Y', '%Y-%b-%d', '%d.%B.%Y', '%Y/%m/%d,%a', '%Y/%m/%d(%A)', '%d_%h_%Y', '%Y%b%d', '%d-%b-%y',
+                         '%d/%b', '%Y-%B', '%m/%d/%Y_%a', '%d%B%Y%A', '%Y.%m.%d.%a.%b', '%d%bch%Y', '%d%be%Y', '%Y%m%d%aday', '%d%buary%Y', '%Y%a%m%d', '%d%B,%Y', '%d%b%a%Y',
+                         '%d-%B-%y', '%Y%B%d', '%d%Bx%Y', '%Y/%b/%d', '%d%A%b%Y', '%Y.%m.%d.%b', '%d/%m(%B)%Y', '%m-%d-%Y,%h']
+NAME_FMTS_NAME_FIRST = ['%a,%Y/%m/%d', '%A,%d.%m.%Y', '%b-%d-%Y', '%B/%d/%Y', '%a,%d%b%Y', '%A%B%d,%Y', '%b%d', '%h.%d.%Y', '%a%d%m%Y', '%b%Y', '%A%d%B%y']
+
+
+def expand_names(fmt, y, m, d, wd=None, mname=None):
+    """python rendering of an input format over %Y %m %d %y %b %B %h %a %A %% for the day (y, m, d);
+    wd / mname override the weekday (0 = Monday) / the month whose NAME is written"""
+    if wd is None:
+        wd = datetime.date(y, m, d).weekday()
+    mn = m if mname is None else mname
+    out = []
+    i = 0
+    while i < len(fmt):
+        if fmt[i] == '%':
+            c = fmt[i + 1]
+            out.append({'Y': '%04d' % y, 'm': '%02d' % m, 'd': '%02d' % d, 'y': '%02d' % (y % 100), '%': '%',
+                        'b': MONTHS[mn - 1][:3], 'h': MONTHS[mn - 1][:3], 'B': MONTHS[mn - 1], 'a': WD[wd], 'A': WDFULL[wd]}[c])
+            i += 2
+        else:
+            out.append(fmt[i])
+            i += 1
+    return ''.join(out)
+
+
+def abbrev_continued(fmt, y, m, d):
+    """does the text the format prints for this day hold an abbreviated name (%b %h %a) directly
+    followed by literal characters that spell the rest of the FULL name (`%bch` in March, `%be` in
+    June, `%aday` on a Sunday)?  strptime reads either form of a name for either directive, the full
+    name first (finding F-C14-N1)."""
+    wd = datetime.date(y, m, d).weekday()
+    for mt in re.finditer(r'%([bha])((?:[^%]|%%)*)', fmt):
+        full = WDFULL[wd] if mt.group(1) == 'a' else MONTHS[m - 1]
+        rest = full[3:]
+        lit = mt.group(2).replace('%%', '%')
+        if rest and lit.lower().startswith(rest.lower()):
+            return True
+    return False
+
+
+def swap_name_forms(fmt):
+    """the same format with abbreviated and full names exchanged"""
+    return fmt.replace('%b', '%\0').replace('%h', '%\0').replace('%B', '%b').replace('%\0', '%B').replace('%a', '%\1').replace('%A', '%a').replace('%\1', '%A')
+
+
+def g_names(ctx, rng, ngroups, per):
+    """--input-date-format with month and weekday NAMES (%b %B %h %a %A): the exact text the format
+    prints for a day, the same with another letter case, with the full name where the abbreviation
+    belongs (and back), with the name of another weekday or month, with an impossible day, with damaged
+    names.  Formats that begin with a name are read as auxiliary dates (DATE=AUX, [=AUX] in a posting
+    note): a transaction line begins with a digit."""
+    groups = []
+    for gi in range(ngroups):
+        first = rng.random() < 0.4
+        fmt = rng.choice(NAME_FMTS_NAME_FIRST if first else NAME_FMTS_DIGIT_FIRST)
+        has_wd = '%a' in fmt or '%A' in fmt
+        has_mname = any(x in fmt for x in ('%b', '%B', '%h'))
+        complete = ('%d' in fmt) and ('%m' in fmt or has_mname) and ('%Y' in fmt or '%y' in fmt)
+        now = rng.choice([NOW, (2021, 1, 15), (2024, 2, 29), (1999, 12, 31)])
+        extra = [fmt]
+        if rng.random() < 0.2:
+            extra = [rng.choice(['%d.%m.%Y', '%Y%m%d', '%d-%b-%Y', '%Y-%B-%d'])] + extra     # fmt is tried first (push_front)
+        txs = []
+        for k in range(per):
+            if '%y' in fmt and rng.random() < 0.8:
+                y = rng.randrange(1969, 2069)
+            else:
+                y = rng.choice([rng.randrange(1400, 10000), rng.randrange(1900, 2200), 2020, 2021])
+            m = rng.randrange(1, 13)
+            d = rng.randrange(1, dim(y, m) + 1)
+            year_ok = '%Y' in fmt or 1969 <= y <= 2068
+            r = rng.random()
+            intent = None
+            if r < 0.35:
+                s, kind = expand_names(fmt, y, m, d), 'names'
+                if abbrev_continued(fmt, y, m, d):
+                    kind = 'names-abbreviation-followed-by-rest-of-full-name'
+                if complete and year_ok and len(extra) == 1:
+                    intent = ('date', (y, m, d))
+            elif r < 0.47:
+                s0 = expand_names(fmt, y, m, d)
+                s = rng.choice([s0.lower(), s0.upper(), s0.swapcase(), ''.join(c.upper() if rng.random() < 0.3 else c for c in s0)])
+                kind = 'names-case'
+                if s == s0:
+                    continue
+            elif r < 0.57:
+                s, kind = expand_names(swap_name_forms(fmt), y, m, d), 'names-other-form'
+            elif r < 0.69 and has_wd:
+                wd = datetime.date(y, m, d).weekday()
+                s, kind = expand_names(fmt, y, m, d, wd=(wd + rng.randrange(1, 7)) % 7), 'names-wrong-weekday'
+                if complete and year_ok and len(extra) == 1:
+                    intent = ('reject', 'weekday-name-of-another-day')
+            elif r < 0.69 and '%m' in fmt and has_mname:
+                s, kind = expand_names(fmt, y, m, d, mname=(m - 1 + rng.randrange(1, 12)) % 12 + 1), 'names-two-months'
+                if complete and year_ok and len(extra) == 1:
+                    intent = ('reject', 'month-name-and-number-differ')
+            elif r < 0.78:
+                bm = rng.choice([m, m, 2, 4])
+                bd = rng.choice([dim(y, bm) + 1, 31, 30, 29, 32, 0])
+                s, kind = expand_names(fmt, y, bm, bd, wd=rng.randrange(7)), 'names-impossible'
+                if complete and '%Y' in fmt and not py_valid(y, bm, bd) and len(extra) == 1:
+                    intent = ('reject', 'custom-impossible')
+                elif py_valid(y, bm, bd):
+                    kind = 'names-any-weekday'
+            elif r < 0.86:
+                s0 = expand_names(fmt, y, m, d)
+                # damage a name: drop / double / replace one of its letters, 4-letter abbreviations
+                pos = [i for i, c in enumerate(s0) if c.isalpha()]
+                if not pos:
+                    continue
+                p = rng.choice(pos)
+                s = rng.choice([s0[:p] + s0[p + 1:], s0[:p] + s0[p] + s0[p:], s0[:p] + rng.choice('abejmnrstuy') + s0[p + 1:], s0[:p + 1] + 't' + s0[p + 1:]])
+                kind = 'names-damaged'
+                if s == s0:
+                    continue
+            elif r < 0.93:
+                s, kind = expand_names(fmt, y, m, d) + rng.choice(['x', 'x', 'day', 'e']), 'names-trailing'
+                if complete and year_ok and len(extra) == 1 and s.endswith('x'):
+                    intent = ('reject', 'trailing')
+            else:
+                s, kind = spell(y, m, d, rng.choice(SEPS), None, rng.random() < 0.7 or m >= 10, rng.random() < 0.7 or d >= 10), 'default-under-custom'
+            if not s or any(c in s for c in '= ;:[]') or len(s) > 100:
+                continue
+            ds = DS(s, intent, kind)
+            if s[0].isdigit() and not first:
+                txs.append(Tx(ds, cur=now))
+            else:
+                plain = DS(spell(y, m, d), ('date', (y, m, d)), 'ymd/zeros')
+                if rng.random() < 0.6:
+                    txs.append(Tx(plain, xa=ds, cur=now))
+                else:
+                    txs.append(Tx(plain, pa=ds, cur=now))
+        groups.append(Group('names%d' % gi, txs, now=now, extra=extra))
+    return groups
+
+
 # ------------------------------------------------------------------------------------------ several formats in one run
 FMT_POOL = ['%m/%d/%Y', '%d/%m/%Y', '%Y-%m-%d', '%A', '%d %B %Y', '%y%m%d', '%a %e %b', '%j', '%Y/%m/%d', '%As',
             '%A %d %B %Y', '%B', '%d.%m.%y', '%Y%m%d', '%u %w', '%b-%d', '%e/%m', '%Y', '%m', '%d', '%a, %d %b %Y', '%Y.%j']
@@ -1242,6 +1385,7 @@ def run(ctx, small=False):
     groups += g_md_include(ctx, rng, inc_nows, ctx.scale(10, 16), False)
     groups += g_md_include(ctx, rng, inc_nows[:ctx.scale(5, 16)], ctx.scale(8, 12), True)
     groups += g_custom(ctx, rng, ctx.scale(150, 1500), 30)
+    groups += g_names(ctx, rng, ctx.scale(120, 1200) if not small else 40, 30)
     run_groups(ctx, res, groups)
     g_order(ctx, rng, res, ctx.scale(2000, 20000))
     g_multi(ctx, rng, res, ctx.scale(120, 1200) if not small else 60)
